@@ -7,6 +7,7 @@
 (*     satisfiable and the proposed repair is sufficient on the bounded inputs);   *)
 (*   - the pipeline as implemented (strip after the bookkeeping) is expected to   *)
 (*     violate ImplDistinct: negative control exhibiting P7 inside TLC;            *)
+(*   - likewise ImplShort (an id with a contig number of more than five digits);   *)
 (*   - every other clause holds on the implemented pipeline as well.               *)
 (* `impl` carries the implemented pipeline's prediction so that the harness can    *)
 (* report drift between the code and the implementation model (never an alarm).    *)
@@ -35,9 +36,11 @@ RepairedSatisfies == stage = 2 =>
     IF Repaired.rejected THEN RejectionJustified(In) ELSE IdsOK(In, Repaired.v, allow)
 (* expected to be violated (P7) *)
 ImplDistinct == stage = 2 => (~Impl.rejected => "ids_pairwise_distinct" \notin IdsFailed(In, Impl.v, allow))
+(* expected to be violated (contig number of more than five digits) *)
+ImplShort == stage = 2 => (~Impl.rejected => IdsFailed(In, Impl.v, allow) \cap {"at_most_16_characters", "name_at_most_16_characters"} = {})
 ImplOtherClauses == stage = 2 =>
     IF Impl.rejected THEN RejectionJustified(In)
-    ELSE IdsFailed(In, Impl.v, allow) \subseteq {"ids_pairwise_distinct"}
+    ELSE IdsFailed(In, Impl.v, allow) \subseteq {"ids_pairwise_distinct", "at_most_16_characters", "name_at_most_16_characters"}
 (* the repair changes nothing where the implemented pipeline was already right *)
 RepairConservative == stage = 2 =>
     ((~Impl.rejected /\ IdsOK(In, Impl.v, allow)) => Repaired.v = Impl.v)
